@@ -165,6 +165,7 @@ class BitmapHist : public Engine {
         bool prev_big = false;
         int prev_special = -1; // slot that was just cleared / cloned into / reloaded
         int pending_perturb = 0, perturb_obj = 0, perturb_src = 0;
+        bool perturb_swap = false;
         int cleared_run = -1;
         int pair_pending = -1, pair_obj = -1; // two neighbouring run containers to be combined next
         std::vector<size_t> rare_targets; // operations on rarely reached allocation paths
@@ -202,6 +203,7 @@ class BitmapHist : public Engine {
                 pending_perturb--;
                 o = perturb_obj;
                 bool rem = r.chance(1, 2) && g.m[o].any();
+                if (perturb_swap) rem = pending_perturb == 1 && g.m[o].any(); // remove one, then add one: equal sizes
                 uint32_t v;
                 if (rem) {
                     v = pick_member(g, o);
@@ -271,7 +273,27 @@ class BitmapHist : public Engine {
                     else if (mx >= len) mn = mx - len;
                     else mx = mn + len <= 65535 ? mn + len : 65535;
                 }
-                if (k == ADDR && g.m[o].none() && r.chance(1, 2)) {
+                if (g.is_run[o] == 1 && g.m[o].any() && r.chance(1, 2)) {
+                    // a range right next to the run this container already holds: overlapping its
+                    // end by one, touching it, one value apart, two apart (before or after it)
+                    uint32_t lo = (uint32_t)g.m[o]._Find_first(), hi = lo;
+                    while (hi + 1 < 65536 && g.m[o][hi + 1]) hi++;
+                    long gap = (long)r.below(4) - 1;
+                    uint32_t len = r.chance(1, 2) ? (uint32_t)r.range(1, 600) : (uint32_t)r.range(1, 9000);
+                    if (r.chance(1, 2)) {
+                        long st = (long)hi + 1 + gap;
+                        if (st >= 0 && st < 65535) {
+                            mn = (uint32_t)st;
+                            mx = std::min<uint32_t>(65535, mn + len);
+                        }
+                    } else {
+                        long en = (long)lo - gap;
+                        if (en > 0 && en <= 65535) {
+                            mx = (uint32_t)en;
+                            mn = mx > len ? mx - len : 0;
+                        }
+                    }
+                } else if (k == ADDR && g.m[o].none() && r.chance(1, 2)) {
                     // a second run container right next to a live one: touching it, one value
                     // apart, two apart, or overlapping its end by one - then the two are combined
                     int other = -1;
@@ -325,7 +347,11 @@ class BitmapHist : public Engine {
                 next_special = o;
                 // perturb the clone a little, then combine it with its origin: operands that
                 // share most of their members
-                if (r.chance(1, 2) && i + 4 < nops) pending_perturb = (int)r.range(1, 3), perturb_obj = o, perturb_src = src;
+                if (r.chance(1, 2) && i + 4 < nops) {
+                    pending_perturb = (int)r.range(1, 3), perturb_obj = o, perturb_src = src;
+                    perturb_swap = r.chance(1, 3);
+                    if (perturb_swap) pending_perturb = 2;
+                }
                 break;
             }
             case ADDMANY: {
@@ -339,7 +365,27 @@ class BitmapHist : public Engine {
                 default: n = r.range(1, 200); break;
                 }
                 auto &vals = op.mkarr("values");
-                if (r.chance(1, 3)) { // strided sequence (possibly descending)
+                int big = -1;
+                for (int t = 0; t < NOBJ; t++)
+                    if (t != o && g.m[t].count() >= 64 && (big < 0 || r.chance(1, 2))) big = t;
+                if (big >= 0 && r.chance(1, 3)) {
+                    // a small operand made of members of a much larger one and of their neighbours,
+                    // combined with it next: searches that skip ahead in the larger operand
+                    for (int t = 0; t < NOBJ; t++)
+                        if (t != big && g.m[t].none()) o = t;
+                    op.set("obj", o);
+                    n = r.range(1, std::max<size_t>(1, std::min<size_t>(60, g.m[big].count() / 64)));
+                    for (size_t j = 0; j < n; j++) {
+                        uint32_t v = pick_member(g, big);
+                        switch (r.below(6)) {
+                        case 0: v = (v + 1) & 0xffff; break;
+                        case 1: v = (v - 1) & 0xffff; break;
+                        default: break;
+                        }
+                        vals.push_back(v);
+                    }
+                    if (pending_perturb == 0) pair_pending = big, pair_obj = o;
+                } else if (r.chance(1, 3)) { // strided sequence (possibly descending)
                     uint32_t start = gen_val(g), stride = (uint32_t)r.range(1, 40);
                     bool desc = r.chance(1, 3);
                     for (size_t j = 0; j < n; j++)
